@@ -350,3 +350,153 @@ Proof.
   - apply Forall_app. split; auto. constructor; [|constructor]. split; cbn [fst snd]; [discriminate|].
     constructor; auto.
 Qed.
+
+(* ------------------------------------------------------------------------------------------ *)
+(* the invariant.  [Sur k a0 h]: as [ExpInv h], but address [a0] holds [k] exemptions more than
+   outstanding items: the shape of the intermediate states inside a handler function (a request
+   was taken out of the active requests and its exemption is about to be returned or the
+   request is about to be re-inserted). *)
+
+Definition SurT (k : nat) (a0 : addr) (act : list (naddr * list rcall)) (ch : list (naddr * chall * N))
+  (ex : list (addr * nat)) : Prop :=
+  ActWF act /\ ExpWF ex /\
+  forall a, exp_get a ex = cnt_act a act + cnt_ch a ch + (if N.eqb a0 a then k else 0).
+Definition Sur (k : nat) (a0 : addr) (h : hstate) : Prop := SurT k a0 (active h) (challenges h) (expected h).
+
+Definition ExpInv (h : hstate) : Prop :=
+  (ActWF (active h) /\ ExpWF (expected h)) /\
+  forall a, exp_get a (expected h) = cnt_active a h + cnt_chall a h.
+
+Lemma Sur0_iff : forall a0 h, Sur 0 a0 h <-> ExpInv h.
+Proof.
+  intros a0 h. unfold Sur, SurT, ExpInv, cnt_active, cnt_chall. split.
+  - intros (H1 & H2 & H3). split; auto. intros a. rewrite H3. destruct (N.eqb a0 a); lia.
+  - intros ((H1 & H2) & H3). repeat split; auto. intros a. rewrite H3. destruct (N.eqb a0 a); lia.
+Qed.
+Lemma Sur0_any : forall a0 a1 h, Sur 0 a0 h -> Sur 0 a1 h.
+Proof. intros a0 a1 h H. apply Sur0_iff. apply Sur0_iff in H. exact H. Qed.
+
+Lemma Sur_ext : forall k a h h', active h' = active h -> challenges h' = challenges h -> expected h' = expected h ->
+  Sur k a h -> Sur k a h'.
+Proof. intros k a h h' H1 H2 H3. unfold Sur. rewrite H1, H2, H3. auto. Qed.
+Lemma ExpInv_ext : forall h h', active h' = active h -> challenges h' = challenges h -> expected h' = expected h ->
+  ExpInv h -> ExpInv h'.
+Proof. intros h h' H1 H2 H3 H. apply (Sur0_iff 0%N). apply (Sur0_iff 0%N) in H. eapply Sur_ext; eauto. Qed.
+
+Lemma init_ExpInv : ExpInv init_state.
+Proof.
+  unfold ExpInv, ActWF, ExpWF, cnt_active, cnt_chall. cbn. repeat split; constructor.
+Qed.
+
+(* frame: operations that leave active requests, challenges and exemptions alone *)
+Definition same_ace (h' h : hstate) : Prop :=
+  active h' = active h /\ challenges h' = challenges h /\ expected h' = expected h.
+Lemma same_ace_refl : forall h, same_ace h h.
+Proof. intros h. repeat split. Qed.
+Lemma same_ace_trans : forall h1 h2 h3, same_ace h1 h2 -> same_ace h2 h3 -> same_ace h1 h3.
+Proof. intros h1 h2 h3 (A1 & A2 & A3) (B1 & B2 & B3). repeat split; congruence. Qed.
+Lemma Sur_same : forall k a h h', same_ace h' h -> Sur k a h -> Sur k a h'.
+Proof. intros k a h h' (H1 & H2 & H3). apply Sur_ext; assumption. Qed.
+Lemma ExpInv_same : forall h h', same_ace h' h -> ExpInv h -> ExpInv h'.
+Proof. intros h h' (H1 & H2 & H3). apply ExpInv_ext; assumption. Qed.
+
+Lemma sess_get_same : forall h na, same_ace (fst (sess_get h na)) h.
+Proof. intros h na. unfold sess_get. destruct (alist_get na (sessions h)); repeat split. Qed.
+Lemma sess_put_same : forall h na se, same_ace (sess_put h na se) h.
+Proof. repeat split. Qed.
+Lemma sess_insert_same : forall c h na se, same_ace (sess_insert c h na se) h.
+Proof. repeat split. Qed.
+Lemma sess_remove_same : forall h na, same_ace (sess_remove h na) h.
+Proof. repeat split. Qed.
+Lemma set_pending_same : forall h p, same_ace (set_pending h p) h.
+Proof. repeat split. Qed.
+Lemma push_pending_same : forall h na q, same_ace (push_pending h na q) h.
+Proof. intros h na q. unfold push_pending. destruct (alist_get na (pending h)); repeat split. Qed.
+
+Lemma encrypt_message_hs : forall c s na se m, hs (fst (fst (encrypt_message c s na se m))) = hs s.
+Proof.
+  intros c s na se m. unfold encrypt_message. destruct (pop_pk (dr s)) as [[[[x1 x2] x3] x4] d']. reflexivity.
+Qed.
+
+Lemma is_awaiting_session_same : forall s na, same_ace (hs (fst (is_awaiting_session s na))) (hs s).
+Proof.
+  intros s na. unfold is_awaiting_session. pose proof (sess_get_same (hs s) na) as H.
+  destruct (sess_get (hs s) na) as [h se]. cbn [fst] in H. destruct se; exact H.
+Qed.
+
+(* primitive transformers *)
+Lemma Sur_add_expected : forall k a s, Sur k a (hs s) -> Sur (S k) a (hs (add_expected s a)).
+Proof.
+  intros k a s (H1 & H2 & H3). unfold Sur, SurT. cbn [add_expected with_hs hs active challenges expected].
+  repeat split; auto.
+  - apply exp_add_wf; assumption.
+  - intros b. rewrite exp_get_add, H3. destruct (N.eqb a b); lia.
+Qed.
+Lemma Sur_remove_expected : forall k a s, Sur (S k) a (hs s) -> Sur k a (hs (remove_expected s a)).
+Proof.
+  intros k a s (H1 & H2 & H3). unfold Sur, SurT. cbn [remove_expected with_hs hs active challenges expected].
+  repeat split; auto.
+  - apply exp_remove_wf; assumption.
+  - intros b. rewrite exp_get_remove, H3 by assumption. destruct (N.eqb a b); lia.
+Qed.
+
+Lemma Sur_ar_insert : forall c k na r now h, Sur (S k) (snd na) h -> req_ok na r ->
+  Sur k (snd na) (ar_insert c h na r now).
+Proof.
+  intros c k na r now h (H1 & H2 & H3) Hok. unfold Sur, SurT, ar_insert.
+  cbn [set_active active challenges expected]. destruct (alist_get na (active h)) as [l|] eqn:G.
+  - destruct (ActWF_get _ _ _ H1 G) as [Hne HF]. repeat split; auto.
+    + eapply ActWF_set; eauto.
+      * destruct l; discriminate.
+      * apply Forall_app. split; auto.
+    + intros a. rewrite H3. pose proof (cnt_act_set a _ _ _ (l ++ [r]) G) as E.
+      rewrite app_length in E. cbn [length] in E. unfold ind in E. destruct (N.eqb (snd na) a); lia.
+  - repeat split; auto.
+    + apply ActWF_app_new; assumption.
+    + intros a. rewrite H3, cnt_act_app. cbn [cnt_act length]. unfold ind. destruct (N.eqb (snd na) a); lia.
+Qed.
+
+Lemma emit_hs : forall s o, hs (emit s o) = hs s.
+Proof. reflexivity. Qed.
+Lemma send_hs : forall s na p, hs (send s na p) = hs s.
+Proof. reflexivity. Qed.
+
+Lemma fold_left_inv : forall {A B} (P : A -> Prop) (f : A -> B -> A) (l : list B),
+  (forall a b, In b l -> P a -> P (f a b)) -> forall a, P a -> P (fold_left f l a).
+Proof.
+  intros A B P f. induction l as [|b r IH]; cbn [fold_left]; intros Hf a Ha; auto.
+  apply IH.
+  - intros a' b' Hin. apply Hf. right. assumption.
+  - apply Hf; auto. left. reflexivity.
+Qed.
+
+(* ------------------------------------------------------------------------------------------ *)
+(* one lemma per model function *)
+
+Lemma send_request_inv : forall c s ct ext rid body now,
+  ExpInv (hs s) -> ExpInv (hs (fst (send_request c s ct ext rid body now))).
+Proof.
+  intros c s ct ext rid body now H. unfold send_request.
+  destruct (existsb (N.eqb (c_addr ct)) (cfg_listen c)); [exact H|].
+  assert (H1 : same_ace (hs (fst (if has_challenge (hs s) (c_naddr ct) then (s, true)
+                                    else is_awaiting_session s (c_naddr ct)))) (hs s)).
+  { destruct (has_challenge (hs s) (c_naddr ct)); [apply same_ace_refl | apply is_awaiting_session_same]. }
+  destruct (if has_challenge (hs s) (c_naddr ct) then (s, true) else is_awaiting_session s (c_naddr ct))
+    as [s1 aw]. cbn [fst] in H1.
+  destruct aw; cbn [fst].
+  - cbn [with_hs hs]. eapply ExpInv_same; [|exact H].
+    eapply same_ace_trans; [apply push_pending_same | exact H1].
+  - pose proof (sess_get_same (hs s1) (c_naddr ct)) as H2.
+    destruct (sess_get (hs s1) (c_naddr ct)) as [h2 se]. cbn [fst] in H2.
+    assert (H3 : ExpInv h2). { eapply ExpInv_same; [|exact H]. eapply same_ace_trans; eauto. }
+    destruct se as [se|].
+    + pose proof (encrypt_message_hs c (with_hs s1 h2) (c_naddr ct) se (MReq rid body)) as H4.
+      destruct (encrypt_message c (with_hs s1 h2) (c_naddr ct) se (MReq rid body)) as [[s3 se'] p].
+      cbn [fst with_hs hs] in H4. cbn [fst with_hs hs send emit].
+      apply (Sur0_iff (snd (c_naddr ct))). apply Sur_ar_insert; [|reflexivity].
+      apply (Sur_add_expected 0). cbn [hs]. apply (Sur0_iff (c_addr ct)).
+      eapply ExpInv_same; [apply sess_put_same|]. rewrite H4. exact H3.
+    + destruct (pop_pk (dr (with_hs s1 h2))) as [[[[cn r] aad] x4] d']. cbn [fst with_hs hs send emit].
+      apply (Sur0_iff (snd (c_naddr ct))). apply Sur_ar_insert; [|reflexivity].
+      apply (Sur_add_expected 0). cbn [hs]. apply (Sur0_iff (c_addr ct)). exact H3.
+Qed.
